@@ -1,6 +1,7 @@
 package props
 
 import (
+	"strings"
 	"time"
 
 	"verif/harness/internal/mc"
@@ -70,6 +71,11 @@ func init() {
 		Thorough:       []Run{{Scenario: "gang-cap-drain", Depth: 9, MapModes: []int{1, 2}}, {Scenario: "gang-sparse-cap", Depth: 8, MapModes: []int{1}}, {Scenario: "cap-basic-fair", Depth: 8, MapModes: []int{1, 2}}, {Scenario: "cap-basic-binpacking", Depth: 8, MapModes: []int{1}}, {Scenario: "gang-cap-Soft", Depth: 8, MapModes: []int{1, 2}}, {Scenario: "reserve-cap", Depth: 8, MapModes: []int{1, 2}}},
 		QuickBudget:    150 * time.Second,
 		ThoroughBudget: 12 * time.Minute,
+		// the moment of the binding under concurrency: scheduling cycle || allocation placed by the RM on the same node, node
+		// registration, drain
+		Also: c14Part("C01", "c01ilv", "step-C01-", func(n string) bool {
+			return strings.HasPrefix(n, "S30-") || strings.HasPrefix(n, "S19-") || strings.HasPrefix(n, "S23-") || strings.HasPrefix(n, "S8-")
+		}), Replay: replayC14,
 	})
 	registerCheck(&CheckDef{Prop: "C03", Level: "model_checking", Technique: "explicit-state BFS over the real ClusterContext (bounded op sequences, canonical-state dedup)",
 		Quick:          []Run{{Scenario: "acct-basic-fair", Depth: 6, MapModes: []int{1}}, {Scenario: "gang-acct-Soft", Depth: 6, MapModes: []int{1}}, {Scenario: "gang-acct-Hard", Depth: 6, MapModes: []int{1}}, {Scenario: "reserve-acct", Depth: 6, MapModes: []int{1}}, {Scenario: "gang-acct-same", Depth: 6, MapModes: []int{1}}},
